@@ -102,13 +102,19 @@ def main():
         for r in range(1, p.n_runs(6 if thorough else 4) + 1):
             vals = p.run_values(r, False)
             out.append((p, r, we.leg(p, "py", "binary", "binary", vals, "plan-r%d" % r, block=[None, 1, 2][r % 3])))
+            # ... and the JSON plan (JsonPlan of Ndjson.tla: which unions carry tags, which record fields are omitted, maps as objects
+            # or pair lists): the spec's NDJSON text read and re-written by the generated Python NDJSON code
+            jvals = p.run_values(r, True)
+            if jvals is not None:
+                out.append((p, -r, we.leg(p, "py", "ndjson", "ndjson", jvals, "jplan-r%d" % r)))
         return out
     for p, r, rr in [x for lst in pmap(execwork, pkgs) for x in lst]:
         c.cov["traces_validated_against_impl"] += 1
         c.count(("exec", p.idx, r), nontrivial=True)
         if not rr["ok"]:
             st = we.blame_step(p, rr["msg"])
-            c.violation("C14:python-exec:%s" % (we.type_class(st["t"]) if st else "?"), "the Python backend does not lay out the value as the plan prescribes: " + rr["msg"][:300],
+            c.violation("C14:python-%sexec:%s" % ("json-" if r < 0 else "", we.type_class(st["t"]) if st else "?"),
+                        ("the Python NDJSON backend does not follow the JSON plan: " if r < 0 else "the Python backend does not lay out the value as the plan prescribes: ") + rr["msg"][:300],
                         {"run": r, "model": open(os.path.join(p.root, "model", "model.yml")).read()[:3000], "stderr": rr.get("stderr")})
     # ---- the C++ backend decides part of its plan in generated code that cannot be read off a construction expression: whether a record
     #      (and containers of it) is copied as raw memory or field by field.  Records and containers of records are therefore executed in C++.
